@@ -485,9 +485,59 @@ def cost_bound(sym, target, n):
     sym.note_max("max-steps-seen", cost)
 
 
+def structure_budget(n):
+    """declared bound for loading a document with n variants (quadratic in n; the loaders are linear with a small quadratic part for
+    the prefix scans of the legacy layout)"""
+    return 4000 + 1200 * n + 120 * n * n
+
+
+def cost_structure(sym, layout, shape, n):
+    """documents that grow in structure rather than in the length of one string: loading a composeinfo with n variants - a chain
+    nested n deep or n children of one parent, in the current and in the legacy (UID-prefix) layout - stays within the declared bound,
+    whether the document is accepted or refused"""
+    import json
+    from productmd.composeinfo import ComposeInfo
+    uids = []
+    if shape == "chain":
+        for i in range(n):
+            uids.append("-".join("V%d" % j for j in range(i + 1)))
+    else:
+        uids = ["V0"] + ["V0-C%d" % i for i in range(n - 1)]
+    variants = {}
+    for u in uids:
+        name = sym.str("name_" + u.replace("-", "_"), 2, minlen=1, alphabet=["a-z"])
+        entry = {"id": u.split("-")[-1], "uid": u, "name": name, "type": "variant", "arches": ["x86_64"], "paths": {"os_tree": {"x86_64": u + "/os"}}}
+        if layout == "current":
+            kids = [k for k in uids if k.startswith(u + "-") and k.count("-") == u.count("-") + 1]
+            if kids:
+                entry["variants"] = [k.split("-")[-1] for k in kids]
+        variants[u] = entry
+    doc = {"header": {"version": "1.2" if layout == "current" else "0.3", "type": "productmd.composeinfo"},
+           "payload": {"compose": {"id": "F-1-20200101.0", "type": "production", "date": "20200101", "respin": 0},
+                       ("release" if layout == "current" else "product"): {"name": "F", "short": "F", "version": "1", "type": "ga"},
+                       "variants": variants}}
+    text = json.dumps(doc)
+    ci = ComposeInfo()
+    sym.step_limit(structure_budget(n))
+    before = sym.steps()
+    try:
+        ci.loads(text)
+    except ValueError:
+        pass
+    cost = sym.steps() - before
+    sym.step_limit(None)
+    sym.cover("returned")
+    sym.check("cost-within-the-declared-bound", cost <= structure_budget(n))
+    sym.note_max("max-steps-seen", cost)
+
+
 def jobs(tier, seed):
     big = tier == "thorough"
     out = []
+    for layout in ("current", "legacy"):
+        for shape in ("chain", "wide"):
+            for n in ((4, 8, 12, 16) if big else (4, 8, 12)):
+                out.append({"harness": "cost_structure", "params": {"layout": layout, "shape": shape, "n": n}})
     for t in sorted(_targets()):
         for n in ((6, 12, 18) if big else (6, 12)):
             out.append({"harness": "cost_bound", "params": {"target": t, "n": n}, "validate_every": 50})
@@ -624,10 +674,12 @@ def run(tier, seed):
     extra["engine_selftests"] = st
     extra["pattern_analysis"] = {"queries": nq + len(infos), "patterns": len(infos)}
     extra["cost_bound"] = {"budget": "200 + 40*len steps", "targets": sorted(_targets()),
-                           "max_steps_seen": dict(("%s/n=%d" % (r["params"]["target"], r["params"]["n"]), r.get("notes", {}).get("max-steps-seen"))
-                                                  for r in results if "params" in r and "crash" not in r)}
-    meta["expected_covers"] = {"cost_bound": ["returned"]}
+                           "max_steps_seen": dict(("%s/n=%d" % (r["params"].get("target") or "%s-%s" % (r["params"].get("layout"), r["params"].get("shape")), r["params"]["n"]),
+                                                   r.get("notes", {}).get("max-steps-seen")) for r in results if "params" in r and "crash" not in r)}
+    meta["expected_covers"] = {"cost_bound": ["returned"], "cost_structure": ["returned"]}
     meta["assumptions"] = meta["assumptions"][:2] + [
+        "structural cost: loading a composeinfo with n = 4, 8, 12 (thorough 16) variants - a chain nested n deep or n children of one parent, current and legacy layout, "
+        "names symbolic - executes at most 4000 + 1200 n + 120 n^2 steps, accepted or refused; larger documents are outside the claim",
         "cost bound of the non-regex code: for every string over the target's family alphabet up to length 6 / 12 (thorough: also 18) the parser or validator executes at most "
         "200 + 40*len steps (executed statements, calls and comprehension iterations of productmd code under the interpreter; a regex match counts as one step, its own "
         "cost being bounded by the ambiguity analysis); longer inputs and other alphabets are outside the claim; a counterexample is replayed natively with a line/call/C-call tracer",
